@@ -9,6 +9,7 @@ import (
 	"bytes"
 	"errors"
 	"io"
+	"os"
 	"strconv"
 	"strings"
 )
@@ -158,4 +159,94 @@ func ArmTarName(n string) bool {
 	}
 	i := strings.LastIndexByte(n, '.')
 	return i >= 0 && !strings.Contains(n[i:], "/") && strings.HasSuffix(n[:i], ".tar")
+}
+
+// ---- the io.ReaderAt handed to LoadAr: I/O-contract corners (all LEGAL readers over the same archive bytes) ----
+
+// ArmReaderKinds names the reader kinds of ArmOpen, by index.
+var ArmReaderKinds = []string{
+	"bytes.Reader", // 0
+	"(n, io.EOF) on a full read reaching the end",     // 1
+	"bytes.Reader after Read of 8 bytes",              // 2
+	"bytes.Reader after reading everything",           // 3
+	"bytes.Reader after Seek to the end",              // 4
+	"strings.Reader",                                  // 5
+	"strings.Reader after Read of 8 bytes",            // 6
+	"strings.Reader after reading everything",         // 7
+	"io.SectionReader at base 13 of a larger buffer",  // 8
+	"*os.File with its offset moved",                  // 9
+	"reader whose Len()/Size() methods say 7 less",    // 10
+	"reader whose Len()/Size() methods say 1000 more", // 11
+}
+
+// ArmReaderFeature is the input feature of a reader kind ("" for the plain bytes.Reader).
+func ArmReaderFeature(kind int) string {
+	switch kind {
+	case 1:
+		return "readerat-eof-with-full-read"
+	case 2, 3, 4, 6, 7:
+		return "reader-position-consumed"
+	case 5:
+		return "strings-reader"
+	case 8:
+		return "section-reader-nonzero-base"
+	case 9:
+		return "os-file-offset-moved"
+	case 10, 11:
+		return "reader-len-method-lies"
+	}
+	return ""
+}
+
+type armLying struct {
+	r     *bytes.Reader
+	delta int
+}
+
+func (l armLying) ReadAt(p []byte, off int64) (int, error) { return l.r.ReadAt(p, off) }
+func (l armLying) Len() int                                { return int(l.r.Size()) + l.delta }
+func (l armLying) Size() int64                             { return l.r.Size() + int64(l.delta) }
+
+// ArmOpen returns the archive bytes behind reader kind k, and a function that releases it (scratch file).
+func ArmOpen(b []byte, k int) (io.ReaderAt, func()) {
+	nop := func() {}
+	switch k {
+	case 1:
+		return ArmEOFReaderAt{B: b}, nop
+	case 2, 3, 4:
+		r := bytes.NewReader(b)
+		switch k {
+		case 2:
+			io.CopyN(io.Discard, r, 8)
+		case 3:
+			io.Copy(io.Discard, r)
+		case 4:
+			r.Seek(0, io.SeekEnd)
+		}
+		return r, nop
+	case 5, 6, 7:
+		r := strings.NewReader(string(b))
+		if k == 6 {
+			io.CopyN(io.Discard, r, 8)
+		} else if k == 7 {
+			io.Copy(io.Discard, r)
+		}
+		return r, nop
+	case 8:
+		big := append(append([]byte("thirteen-byte"), b...), []byte("!<arch>\ntrailing bytes of the larger buffer")...)
+		return io.NewSectionReader(bytes.NewReader(big), 13, int64(len(b))), nop
+	case 9:
+		f, err := os.CreateTemp("", "armfile")
+		if err != nil {
+			return bytes.NewReader(b), nop
+		}
+		f.Write(b)
+		f.Seek(5, io.SeekStart)
+		return f, func() { f.Close(); os.Remove(f.Name()) }
+	case 10:
+		return armLying{bytes.NewReader(b), -7}, nop
+	case 11:
+		return armLying{bytes.NewReader(b), 1000}, nop
+	}
+	return bytes.NewReader(b), nop
 }
